@@ -4,9 +4,87 @@
 #include "../tr/c06_drv.cpp"
 #include "gen/c06_dispatch.inc"
 
+// ---- double-precision instantiations (not translated: the same templates, plus the mixed-precision overloads
+// that only exist for them, e.g. float * QuaternionT<double> inside slerp's near-parallel fallback). Flat double
+// arguments / results as 16-digit hex bit patterns; judged by the reference oracle of props/c06.py only.
+namespace dd {
+using namespace rkcommon::math;
+typedef vec_t<double, 3> V3;
+typedef LinearSpace3<V3> L3;
+typedef AffineSpaceT<L3> A3;
+typedef QuaternionT<double> Q;
+struct In {
+  const std::vector<double> &x;
+  size_t p;
+  double s() { return p < x.size() ? x[p++] : 0.0; }
+  V3 v() { double a = s(), b = s(), c = s(); return V3(a, b, c); }
+  L3 l() { V3 a = v(), b = v(), c = v(); return L3(a, b, c); }
+  A3 a() { L3 m = l(); V3 t = v(); return A3(m, t); }
+  Q q() { double i = s(), j = s(), k = s(), r = s(); return Q(r, i, j, k); }   // field order i, j, k, r
+};
+struct Out {
+  std::vector<double> y;
+  void s(double d) { y.push_back(d); }
+  void v(const V3 &a) { s(a.x); s(a.y); s(a.z); }
+  void l(const L3 &m) { v(m.vx); v(m.vy); v(m.vz); }
+  void a(const A3 &m) { l(m.l); v(m.p); }
+  void q(const Q &a) { s(a.i); s(a.j); s(a.k); s(a.r); }
+};
+static bool dispatch(const std::string &n, In in, Out &o)
+{
+  if (n == "d_q_mul") { Q a = in.q(), b = in.q(); o.q(a * b); }
+  else if (n == "d_q_slerp") { float f = (float)in.s(); Q a = in.q(), b = in.q(); o.q(slerp(f, a, b)); }
+  else if (n == "d_q_rotate_vec") { Q a = in.q(); V3 v = in.v(); o.v(a * v); }
+  else if (n == "d_q_from_matrix") { V3 a = in.v(), b = in.v(), c = in.v(); o.q(Q(a, b, c)); }
+  else if (n == "d_q_rotate") { V3 u = in.v(); double r = in.s(); o.q(Q::rotate(u, r)); }
+  else if (n == "d_q_smul") { float f = (float)in.s(); Q a = in.q(); o.q(f * a); }          // mixed precision
+  else if (n == "d_q_muls") { Q a = in.q(); float f = (float)in.s(); o.q(a * f); }          // mixed precision
+  else if (n == "d_q_normalize") { Q a = in.q(); o.q(normalize(a)); }
+  else if (n == "d_q_rcp") { Q a = in.q(); o.q(rcp(a)); }
+  else if (n == "d_q_from_ypr") { double y = in.s(), p = in.s(), r = in.s(); o.q(Q(y, p, r)); }
+  else if (n == "d_l3_inverse") { L3 m = in.l(); o.l(m.inverse()); }
+  else if (n == "d_l3_det") { L3 m = in.l(); o.s(m.det()); }
+  else if (n == "d_l3_mul") { L3 a = in.l(), b = in.l(); o.l(a * b); }
+  else if (n == "d_l3_rotate") { V3 u = in.v(); double r = in.s(); o.l(L3::rotate(u, r)); }
+  else if (n == "d_l3_from_quat") { Q a = in.q(); o.l(L3(a)); }
+  else if (n == "d_l3_frame") { V3 u = in.v(); o.l(frame(u)); }
+  else if (n == "d_l3_xfmNormal") { L3 m = in.l(); V3 v = in.v(); o.v(xfmNormal(m, v)); }
+  else if (n == "d_a3_rcp") { A3 a = in.a(); o.a(rcp(a)); }
+  else if (n == "d_a3_mul") { A3 a = in.a(), b = in.a(); o.a(a * b); }
+  else if (n == "d_a3_xfmPoint") { A3 a = in.a(); V3 v = in.v(); o.v(xfmPoint(a, v)); }
+  else if (n == "d_a3_lookat") { V3 e = in.v(), p = in.v(), u = in.v(); o.a(A3::lookat(e, p, u)); }
+  else return false;
+  return true;
+}
+static std::string run(const std::vector<std::string> &w)
+{
+  std::vector<double> xs;
+  for (size_t i = 1; i < w.size(); i++) {
+    uint64_t u = std::stoull(w[i], nullptr, 16);
+    double d;
+    std::memcpy(&d, &u, 8);
+    xs.push_back(d);
+  }
+  Out o;
+  if (!dispatch(w[0], In{xs, 0}, o))
+    return "bad-op";
+  std::string out;
+  for (double d : o.y) {
+    char buf[24];
+    if (std::isnan(d)) snprintf(buf, sizeof buf, "nan");
+    else { uint64_t u; std::memcpy(&u, &d, 8); snprintf(buf, sizeof buf, "%016llx", (unsigned long long)u); }
+    if (!out.empty()) out += " ";
+    out += buf;
+  }
+  return out.empty() ? "-" : out;
+}
+}  // namespace dd
+
 int main()
 {
   return vh::run([]() {}, [](const std::vector<std::string> &w) -> std::string {
+    if (w[0].compare(0, 2, "d_") == 0)
+      return dd::run(w);
     std::vector<float> xs;
     for (size_t i = 1; i < w.size(); i++)
       xs.push_back(vh::f32_of_tok(w[i]));
